@@ -13,7 +13,8 @@ from . import canon, data, ops
 
 LABELS = {
     "int": ([1, 2], 3),
-    "str": (["b", "a"], "c"),          # unsorted on purpose: anything keyed by sorted labels shows
+    "str": (["b", "a"], "third"),      # unsorted on purpose (anything keyed by sorted labels shows); the added label is
+                                       # longer than the initial ones (fixed-width string arrays must not truncate it)
     "float": ([1.5, 0.5], 2.5),
 }
 
@@ -59,7 +60,7 @@ def enabled_ops(mab, cf, labels, removed, warm=True, query=False):
         out.append(warm_op(arms))
     if query and fitted(mab) and not knn_short(mab):
         # a prediction made by the bandit itself (not by a copy): whatever it leaves behind stays in the state
-        out.append(["predict", None if cf else [[1, 1], [0, 0]]])
+        out.append(["predict", None if cf else [[1, 1], [0, 0], [2, 2]]])      # odd number of rows: an odd number of 32-bit draws
     return out
 
 
